@@ -285,8 +285,32 @@ def cond_mentions(f, b, i, fields):
     return any(m.k == "MemberExpr" and m.field in fields for m in ec[0].walk())
 
 
+def check_handoff_dep(ctx, P):
+    """the signal / multi-channel sleep-wake hand-off is mechanism 3 / 4 of C01: those obligations are obligations of C11 too"""
+    import check as _chk
+    sub = _chk.Ctx("C01", ctx.tier, ctx.seed)
+    sub._progs = ctx._progs
+    sub.config = ctx.config
+    c01.check_wait_sites(sub, P)
+    c01.check_wake_sites(sub, P)
+    mine = ("fiber_signal_wait", "fiber_signal_raise", "fiber_multi_signal_wait", "fiber_multi_signal_raise", "fiber_multi_signal_raise_strict",
+            "fiber_multi_channel_internal_wait", "fiber_multi_channel_internal_wake", "fiber_manager_set_and_wait")
+    o = ctx.ob("handoff.dep", "", "the sleep / wake hand-off of signals and of the multi channel satisfies the C01 rules of its mechanism (scratch cleared before the "
+               "fiber publishes itself, sleep only behind the won CAS, raisers schedule only after the ready-to-wake marker; multi channel: registration "
+               "under the mutex, mutex released by the successor)",
+               "a raise that schedules the receiver before its context switch completed resumes it from a stale context: the message is processed twice or the "
+               "receiver crashes — and a receiver that is never scheduled strands the sender")
+    fails = [x for x in sub.obs if x.status == "fail" and (x.fn in mine or x.rule.startswith(("wait.3", "wake.3", "wait.4.caller")))]
+    if fails:
+        x = fails[0]
+        o.fail("C01.%s in %s: %s" % (x.rule, x.fn, x.found), site=x.sites[0] if x.sites else None, witness=x.witness, construct="C01 dependency: " + (x.construct or x.rule))
+    else:
+        o.ok("hand-off obligations of %d signal/channel functions discharged" % len(mine))
+
+
 def run(ctx):
     P = ctx.prog()
+    check_handoff_dep(ctx, P)
     check_send_recv(ctx, P)
     check_signal(ctx, P)
     check_bounded(ctx, P)
